@@ -8,7 +8,7 @@ META = {
     'technique': 'Lean 4 theorems about a hand model of wavheader.c built on the pack model (init as a function of the previous structure, set_num_frames, encode, decode, validate with 32-bit wrap-around '
                  'arithmetic); model tied to the C by differential runs (structured init/set_num_frames/encode/decode histories over random prior contents, and a decode-first stream of mutated headers)',
     'level_text': 'Proved for every prior content of the structure, every format, and all channel counts / rates / frame counts whose block alignment fits 16 bits and whose byte rate, data size and RIFF size fit '
-                  '32 bits: init does not depend on the prior contents; the header validates; encode then decode returns the identical structure and the same length (44 or 58); chunk_size = length - 8 + data size; '
+                  '32 bits: init does not depend on the prior contents (in the model this is immediate - init starts with the memset of the fixed code and the model function ignores its prior argument; that the C really ignores prior contents is what the differential run with injected prior contents checks); the header validates; encode then decode returns the identical structure and the same length (44 or 58); chunk_size = length - 8 + data size; '
                   'data size = frames x block alignment; block alignment = channels x width, byte rate = rate x block alignment, bits = 8 x width. Proved for every memory and every declared size: whenever decode '
                   'succeeds with length L <= sz, encoding the decoded structure returns L and writes the same L bytes except that a skipped format-chunk extension is written as zeros '
                   '(PCM, float+fact, extensible with and without the 22-byte extension are cases of one proof).',
